@@ -6,6 +6,30 @@
 // models/sess_msg.c (cut points MessageBase::get<T>, listed in shims/sess.stubs).
 // runtime/session.cpp is compiled *in this translation unit* so that the internal-linkage constants of field.hpp it reads
 // (Common_MsgType_SEQUENCE_RESET, ...; dynamic initialisers that no harness runs) are the objects vf_world_init builds.
+#include <fix8/f8includes.hpp>
+// Log statements are compiled out in the verification build only (as the library itself does for slout_debug without FIX8_DEBUG):
+// every glout_*/slout_* statement has the form `if (!is_loggable(level)); else log_stream(...) << ...`, so with logging disabled its
+// operands are never evaluated.  Compiling them out removes the std::function/std::bind/FileLogger/FastFlow closure from the encoding.
+#undef glout_info
+#undef glout_warn
+#undef glout_error
+#undef glout_fatal
+#undef glout_debug
+#undef ssout_info
+#undef ssout_warn
+#undef ssout_error
+#undef ssout_fatal
+#undef ssout_debug
+#define glout_info true ? FIX8::null_insert() : FIX8::null_insert()
+#define glout_warn true ? FIX8::null_insert() : FIX8::null_insert()
+#define glout_error true ? FIX8::null_insert() : FIX8::null_insert()
+#define glout_fatal true ? FIX8::null_insert() : FIX8::null_insert()
+#define glout_debug true ? FIX8::null_insert() : FIX8::null_insert()
+#define ssout_info(x) true ? FIX8::null_insert() : FIX8::null_insert()
+#define ssout_warn(x) true ? FIX8::null_insert() : FIX8::null_insert()
+#define ssout_error(x) true ? FIX8::null_insert() : FIX8::null_insert()
+#define ssout_fatal(x) true ? FIX8::null_insert() : FIX8::null_insert()
+#define ssout_debug(x) true ? FIX8::null_insert() : FIX8::null_insert()
 #include <session.cpp>
 #include "sess_common.cpp"     // shared setters (same TU: llvm-link would merge isomorphic library types under foreign names)
 extern "C" {
